@@ -731,4 +731,39 @@ theorem childMapOK_lookup_lt : ∀ (cm : ChildMap) (c : Ref) (n : Nat), cm.map (
   rw [hr] at hm
   simpa using hm
 
+/-! ### an erroring `findParent` anywhere makes the whole run fail -/
+
+theorem relGraphs_error (ds : Dataset) (g : String) (qs : List Quad) (k : Nat) (q : Quad) (e : String)
+    (hq : qs[k]? = some q) (hf : findParent ds (g, k) q = .error e) :
+    ∀ (gs : Dataset) (rel : Rel), (g, qs) ∈ gs → ∃ e', relGraphs ds gs rel = .error e' := by
+  intro gs
+  induction gs with
+  | nil => intro rel hm; simp at hm
+  | cons gq rest ih =>
+    intro rel hm
+    obtain ⟨g0, qs0⟩ := gq
+    unfold relGraphs
+    simp at hm
+    rcases hm with ⟨e1, e2⟩ | hm
+    · subst e1; subst e2
+      obtain ⟨e', he'⟩ := relGraph_error' ds g qs 0 rel k q e hq (by simpa using hf)
+      simp [he']
+    · split
+      · exact ⟨_, rfl⟩
+      · exact ih _ hm
+
+/-- **a quad whose `findParent` fails makes `entries` fail** — for every order of the graph map -/
+theorem entries_error_of_findParent (canon : String → Option String) (p : Nat) (ds : Dataset) (g : String) (qs : List Quad)
+    (k : Nat) (q : Quad) (e : String) (hl : ds.lookup g = some qs) (hq : qs[k]? = some q)
+    (hf : findParent ds (g, k) q = .error e) : ∃ e', entries canon p ds = .error e' := by
+  unfold entries
+  split
+  · exact ⟨_, rfl⟩
+  · split
+    · exact ⟨_, rfl⟩
+    · have hm : (g, qs) ∈ sortedGraphs ds := (sortedGraphs_perm ds).mem_iff.mpr (mem_of_lookup_ds ds g qs hl)
+      obtain ⟨e', he'⟩ := relGraphs_error ds g qs k q e hq hf (sortedGraphs ds) {} hm
+      unfold newRelationship
+      simp [he']
+
 end Gsp.Rdf
